@@ -23,6 +23,8 @@ func init() {
 		checkTreeHandedOver(r, prog, a, "c03")
 		r.importing = "C18"
 		checkOptionConstructors(r, prog, "c18") // no state is carried from one operand's evaluation to the next through the options
+		r.importing = "C06"
+		checkQuantifier(r, prog, a, "c06") // … nor through bindings left behind by a quantified operand: each element gets its own list
 		r.importing = ""
 		if g := loadGrammars(r, prog); g != nil {
 			r.importing = "C15"
